@@ -8,15 +8,21 @@
 //   cart_locate   CartesianDensityGrid: lookup, volumes, iteration, neighbours
 //   cart_ray      CartesianDensityGrid::interact / integrate_optical_depth
 //   amr_ray       AMRDensityGrid::interact after two-stage refinement
-//   voronoi_ray   VoronoiDensityGrid::interact / get_cell_index
 //   octree        Octree searches == brute force
 //   pointloc      PointLocations::get_closest_neighbour == brute force
 //   morton        MortonKeyGenerator == independent bit interleave
 //
 // Oracles are written from the mathematics (long double slab intersections,
-// lower envelope for Voronoi, integer tree model for the AMR hierarchy, brute
-// force for the searches); the only thing taken from the code under test is
-// the documented geometry definition (anchor + i * side).
+// integer tree model for the AMR hierarchy, brute force for the searches); the
+// only thing taken from the code under test is the documented geometry
+// definition (anchor + i * side).  (VoronoiDensityGrid traversal is not covered.)
+//
+// Findings of this check that were repaired in /repo (regression cases in
+// replays/C16/prefix-F*.case, reverse patches regress/unfix-F*.diff): F8 block /
+// child index vs. anchors, F22 Cartesian index == ncell below the upper face,
+// F23 absorbed in the last cell reported as escaped, F24 wrong child after a
+// periodic wrap into a refined neighbour, F25 endless loop in a periodic
+// single-block dimension, F26 PointLocations bucket index out of range.
 #include "AMRDensityGrid.hpp"
 #include "AMRGrid.hpp"
 #include "AMRRefinementScheme.hpp"
